@@ -35,7 +35,7 @@ func init() {
 		RequiredCounters: []string{"accept_expected_and_observed", "reject_expected_and_observed", "write_faults_injected", "reader_faults_injected", "trailing_data_rejected", "nested_calls_from_io_callbacks"},
 		Assumptions:      []string{"a reader error other than io.EOF at or after the last field is a failed read, so rejection is expected", "honest proofs come from the library's own prover (their validity is C01's subject)"},
 		Plan: func(tier string) []Child {
-			return plus386(shardsVar(pick(tier, 12, 16), Child{Flavour: "plain", NCPU: 1}), 1)
+			return plus386div(shardsVar(pick(tier, 12, 16), Child{Flavour: "plain", NCPU: 1}), 1, pick(tier, 1, 8))
 		},
 		Run: runC10,
 	})
